@@ -129,6 +129,12 @@ Op(act, args, res) == /\ out = None
                       /\ out' = res
                       /\ Log(act, args)
 
+(* the map itself: what a constructor / a serialisation round trip must preserve *)
+DoDenote      == Op("Denote", <<>>, Val(E0, P0))
+(* get_coordinates(): (start, end) of every span that is not lost, in span order *)
+CoordsOf(sp)  == LET keep == SelectSeq(sp, LAMBDA x : ~IsLost(x))
+                 IN [k \in 1..Len(keep) |-> <<keep[k][1], keep[k][2]>>]
+DoCoords      == Op("Coords", <<>>, [kind |-> "coords", cs |-> CoordsOf(m.spans)])
 DoCovered     == Op("Covered", <<>>, CoveredV(E0, P0))
 DoInverse     == Op("Inverse", <<>>, IF Injective(E0) THEN InverseV(E0, P0) ELSE Raised)
 (* shadow() is inverse().gaps() in the code, so it raises for a map that reads *)
@@ -161,7 +167,8 @@ Init == /\ \E P \in 0..MaxP : \E sp \in SpanLists(P, MaxSpans) : m = [spans |-> 
         /\ out = None
 
 Next == /\ out = None      \* result states have no successors
-        /\ \/ DoCovered \/ DoInverse \/ DoShadow \/ DoNucRev \/ DoGaps \/ DoNongap
+        /\ \/ DoDenote \/ DoCoords
+           \/ DoCovered \/ DoInverse \/ DoShadow \/ DoNucRev \/ DoGaps \/ DoNongap
            \/ DoWithoutGaps \/ DoZeroed \/ DoCovering
            \/ \E k \in Scales : DoScale(k)
            \/ \E sp \in AddLists[P0] : DoAdd(sp)
@@ -176,7 +183,7 @@ Spec == Init /\ [][Next]_vars
 
 TypeOK == /\ m.plen \in 0..MaxP
           /\ out = None => m.spans \in SpanLists(m.plen, MaxSpans)   \* m never changes
-          /\ out.kind \in {"none", "raised", "val"}
+          /\ out.kind \in {"none", "raised", "val", "coords"}
           /\ out.kind = "val" => out.plen \in Nat
 
 (* every operation is a query: the map it is called on is left as it was *)
